@@ -306,9 +306,24 @@ class time_limit:
         return False
 
 
+def _detach(F_in, F_out):
+    """The caller keeps a private copy of the returned gradient and then overwrites both the
+    array it was handed back and the array it passed in: an implementation that keeps a
+    reference to either (for a later call) works from garbage afterwards."""
+    out = np.array(F_out, dtype=float)
+    for a in (F_out, F_in):
+        try:
+            if isinstance(a, np.ndarray) and a.flags.writeable and a.dtype.kind == "f":
+                a[...] = np.nan
+        except Exception:
+            pass
+    return out
+
+
 def update(m, params, F, fl, t0, t1, **kw):
+    F = np.array(F)  # private copy of the caller's gradient (keeps its dtype), overwritten afterwards
     with time_limit():
-        return m.update_orientations(params, F, fl.L, (t0, t1, fl.x), **kw)
+        return _detach(F, m.update_orientations(params, F, fl.L, (t0, t1, fl.x), **kw))
 
 
 def warm():
@@ -426,9 +441,10 @@ class Monitor:
 
 
 def update_mon(m, params, F, fl, t0, t1, **kw):
+    F = np.array(F)
     with Monitor() as mon, time_limit():
         F1 = m.update_orientations(params, F, fl.L, (t0, t1, fl.x), **kw)
-    return F1, mon
+    return _detach(F, F1), mon
 
 
 # ------------------------------------------------------------------ generic BFS
